@@ -1,4 +1,5 @@
 import CircBuf.Lemmas.Tie.IterTie
+import CircBuf.Lemmas.Tie.Live
 import CircBuf.Lemmas.Tie.Swap
 import CircBuf.Lemmas.NonDefect
 import CircBuf.Props.C11
@@ -19,6 +20,7 @@ maybe theorem C11_swap_ok_src (s : Sys) (i j : Nat) (h : Inv s.buf) (hi : i < s.
   first
   | (rw [tie_swap _ _ s h (nd_swap _ _ s h)]; exact C11_swap_ok s i j h hi hj)
   | (have h0 := C11_swap_ok s i j h hi hj; unfold Refines at h0 ⊢; rw [tie_swap _ _ s h (nd_swap _ _ s h)]; exact h0)
+  | (exact Refines.of_liveEq (ltie_swap _ _ s h (nd_swap _ _ s h)) (C11_swap_ok s i j h hi hj))
 
 maybe theorem C11_swap_panics_i_src (s : Sys) (i j : Nat) (hi : ¬ i < s.buf.size) :
     Gen.swap i j s = (.error (.doc "swap_i"), s) :=
